@@ -182,6 +182,10 @@ def compress_rules(ctx, R="R3", with_downcast=True):
     """automatic compression (compress.py): range/finiteness guard of the fixed point encoding, the factor, lossless fallback,
     integer down-cast bounds, tolerance of the decimal places - shared with C04 ('also after compression')"""
     # ---------------- R3 compress ---------------------------------------------------
+    from ..lints import dtype_family_tests
+    # which encoding chain a column gets is decided by its dtype family (string / floating / integer): all widths of it
+    dtype_family_tests(ctx, COMPRESS, f"{R}.dtype-family-test", 3)
+    dtype_family_tests(ctx, ENC, f"{R}.dtype-family-test", 5)
     cz = ctx.src(COMPRESS)
     cd = cz.func("_compress_data")
     g2 = CFG(cd, lambda st: isinstance(st, ast.Raise))
@@ -230,6 +234,8 @@ def compress_rules(ctx, R="R3", with_downcast=True):
 
 
 MUTANTS = [
+    Mutant("compress-float64-only", COMPRESS, "    elif np.issubdtype(array.dtype, np.floating):\n", "    elif np.issubdtype(array.dtype, float):\n", "R3.dtype-family-test"),
+    Mutant("compress-int64-only", COMPRESS, "    elif np.issubdtype(array.dtype, np.integer):\n", "    elif np.issubdtype(array.dtype, int):\n", "R3.dtype-family-test"),
     Mutant("compress-fallback-narrowed-array", COMPRESS,
            "            # non-finite or too large values can only be kept as float\n            return bcif.BinaryCIFData(array, [ByteArrayEncoding()])",
            "            # non-finite or too large values can only be kept as float\n            return bcif.BinaryCIFData(array.astype(np.float32), [ByteArrayEncoding()])",
